@@ -16,6 +16,7 @@ import (
 	"runtime"
 	"strconv"
 	"sync"
+	"sync/atomic"
 	"time"
 
 	"google.golang.org/grpc/codes"
@@ -59,6 +60,10 @@ type caseT struct {
 	Kinds  []kindT `json:"kinds"`
 	Sched  []stepT `json:"sched"`
 	Stress int     `json:"stress"` // >0: run free-running this many times instead of following sched
+	// Attack marks a schedule taken from a named-deviation variant of the specification (a behaviour the
+	// repaired design forbids): where the real code refuses a step (a goroutine blocks on the lock that
+	// forbids it) the run is finished free-running after a short wait instead of a long one.
+	Attack bool `json:"attack"`
 }
 
 type commitT struct {
@@ -76,21 +81,21 @@ type recvT struct {
 	Seed bool `json:"seed"`
 }
 type runLog struct {
-	N        int        `json:"n"`
-	Mode     string     `json:"mode"` // "forced" | "stress"
-	Res      string     `json:"res"`
-	Init     []int      `json:"init"`
-	Progs    []callT    `json:"progs"`
-	Kinds    []kindT    `json:"kinds"`
-	Commits  []commitT  `json:"commits"`
-	Results  []resultT  `json:"results"`
-	Recv     [][]recvT  `json:"recv"`
-	SubAfter []int      `json:"subAfter"` // per subscriber: number of commits that had happened when it was registered on the bus
-	Final    []int      `json:"final"`
-	Steps    int        `json:"steps"`
-	Problem  string     `json:"problem"` // the run could not be completed at all (inconclusive, not a verdict)
-	Drift    string     `json:"drift"`   // the real code left the specification's behaviour at this point (the run was finished free-running)
-	Sched    []stepT    `json:"sched"`
+	N        int       `json:"n"`
+	Mode     string    `json:"mode"` // "forced" | "stress"
+	Res      string    `json:"res"`
+	Init     []int     `json:"init"`
+	Progs    []callT   `json:"progs"`
+	Kinds    []kindT   `json:"kinds"`
+	Commits  []commitT `json:"commits"`
+	Results  []resultT `json:"results"`
+	Recv     [][]recvT `json:"recv"`
+	SubAfter []int     `json:"subAfter"` // per subscriber: number of commits that had happened when it was registered on the bus
+	Final    []int     `json:"final"`
+	Steps    int       `json:"steps"`
+	Problem  string    `json:"problem"` // the run could not be completed at all (inconclusive, not a verdict)
+	Drift    string    `json:"drift"`   // the real code left the specification's behaviour at this point (the run was finished free-running)
+	Sched    []stepT   `json:"sched"`
 }
 
 var ids = []string{"", "aaaaaaaa", "bbbbbbbb"}
@@ -122,17 +127,19 @@ type proc struct {
 }
 
 type world struct {
-	mu      sync.Mutex
-	forced  bool
-	procs   map[int64]*proc // by goroutine id
-	commits []commitT
+	mu       sync.Mutex
+	forced   bool
+	procs    map[int64]*proc // by goroutine id
+	commits  []commitT
 	writerOf map[int64]int
-	progs   []callT
-	nlisten int
+	progs    []callT
+	nlisten  int
 	subAfter map[int64]int // goroutine of a subscriber -> commits at registration
 }
 
-var w *world
+// the world of the run in progress; goroutines left over from an earlier run (listener watchers
+// ending after their context was cancelled) may still call the hook and must see one consistent world
+var cur atomic.Pointer[world]
 
 // gates at which a scheduled process parks (each ends one action of the specification)
 var gates = map[string]bool{"gau.read": true, "gau.changed": true, "pub.before": true, "send.each": true,
@@ -140,6 +147,10 @@ var gates = map[string]bool{"gau.read": true, "gau.changed": true, "pub.before":
 
 func hook(point string, obj any, args ...any) {
 	g := goid()
+	w := cur.Load()
+	if w == nil {
+		return
+	}
 	w.mu.Lock()
 	switch point {
 	case "gau.saved":
@@ -315,14 +326,16 @@ func build(c caseT) target {
 	return target{coll: resource.NewCollection(ro...)}
 }
 
-func newWorld(c caseT, forced bool) {
-	w = &world{forced: forced, procs: map[int64]*proc{}, writerOf: map[int64]int{}, progs: c.Progs, subAfter: map[int64]int{}}
+func newWorld(c caseT, forced bool) *world {
+	w := &world{forced: forced, procs: map[int64]*proc{}, writerOf: map[int64]int{}, progs: c.Progs, subAfter: map[int64]int{}}
+	cur.Store(w)
+	return w
 }
 
 // ---- forced schedules -----------------------------------------------------------------
 
 func runForced(c caseT) runLog {
-	newWorld(c, true)
+	w := newWorld(c, true)
 	t := build(c)
 	lg := runLog{N: c.N, Mode: "forced", Res: c.Res, Init: c.Init, Progs: c.Progs, Kinds: c.Kinds, Sched: c.Sched,
 		Results: make([]resultT, len(c.Progs)), Recv: make([][]recvT, len(c.Kinds)), SubAfter: make([]int, len(c.Kinds)),
@@ -354,10 +367,23 @@ func runForced(c caseT) runLog {
 			w.mu.Unlock()
 		})
 	}
+	stepWait := 5 * time.Second
+	if c.Attack {
+		stepWait = 40 * time.Millisecond
+	}
 	finished := map[*proc]bool{}
 	advance := func(p *proc, d time.Duration) bool {
 		if finished[p] {
 			return false
+		}
+		// an arrival left over from a step that timed out (the process got there later)
+		select {
+		case at := <-p.arrived:
+			if at == "done" {
+				finished[p] = true
+				return true
+			}
+		default:
 		}
 		select {
 		case p.release <- struct{}{}:
@@ -378,12 +404,12 @@ func runForced(c caseT) runLog {
 		ok := true
 		switch st.A {
 		case "Read", "Change", "Commit", "PubSnap", "Deliver", "DRead", "DCheck", "DLock":
-			ok = advance(writers[st.P-1], 5*time.Second)
+			ok = advance(writers[st.P-1], stepWait)
 		case "SubSnap", "SubListen":
-			ok = advance(subProcs[st.P-1], 5*time.Second)
+			ok = advance(subProcs[st.P-1], stepWait)
 		case "Recv":
 			var e recvT
-			e, ok = subs[st.P-1].recv(5 * time.Second)
+			e, ok = subs[st.P-1].recv(stepWait)
 			if ok {
 				lg.Recv[st.P-1] = append(lg.Recv[st.P-1], e)
 			}
@@ -463,7 +489,7 @@ func runForced(c caseT) runLog {
 // runStress runs the same programs without gates; subscribers are opened at a random moment and
 // receive until a sentinel write made after all writers returned comes through.
 func runStress(c caseT, iter int) runLog {
-	newWorld(c, false)
+	w := newWorld(c, false)
 	t := build(c)
 	rnd := hx.Rand(int64(c.N)*7919 + int64(iter))
 	lg := runLog{N: c.N, Mode: "stress", Res: c.Res, Init: c.Init, Progs: c.Progs, Kinds: c.Kinds, Sched: []stepT{},
@@ -515,30 +541,39 @@ func runStress(c caseT, iter int) runLog {
 					lg.Problem = "subscriber starved waiting for the sentinel"
 					return
 				}
+				lg.Recv[i] = append(lg.Recv[i], e)
 				if e.V == sentinel {
 					return
 				}
-				lg.Recv[i] = append(lg.Recv[i], e)
 			}
 		}()
 	}
 	close(start)
 	wg.Wait()
 	swg.Wait()
-	// quiescence by sentinel, not by sleeping: a last write on id 1 that every subscriber must see
-	w.mu.Lock()
-	lg.Commits = append(lg.Commits, w.commits...)
-	w.mu.Unlock()
-	lg.Final = t.contents(len(c.Init))
+	// quiescence by sentinel, not by sleeping: one more write on id 1, made after all writers returned,
+	// that every subscriber must see.  It is an ordinary call of the run (the last program), so that a
+	// lossy stage merging it with an earlier change of the same id is accounted for.
 	if len(c.Kinds) > 0 {
 		sent := callT{Op: "upd", ID: 1, V: sentinel, E: noExp, Cia: true}
-		if r := t.do(sent); r.Err != "OK" {
+		lg.Progs = append(append([]callT{}, c.Progs...), sent)
+		w.mu.Lock()
+		w.progs = lg.Progs
+		w.writerOf[goid()] = len(lg.Progs)
+		w.mu.Unlock()
+		r := t.do(sent)
+		lg.Results = append(lg.Results, r)
+		if r.Err != "OK" {
 			lg.Problem = "sentinel write failed: " + r.Err
 		}
 		for i := range subDone {
 			<-subDone[i]
 		}
 	}
+	w.mu.Lock()
+	lg.Commits = append(lg.Commits, w.commits...)
+	w.mu.Unlock()
+	lg.Final = t.contents(len(c.Init))
 	for i := range lg.Recv {
 		if lg.Recv[i] == nil {
 			lg.Recv[i] = []recvT{}
